@@ -231,6 +231,9 @@ def run(R):
                 "self.fn(...) is called at creation only when it is a generator function (calling it just creates the generator)",
                 "a plain function can be called at task creation", ccfg.fmt_path(p) if p else None)
 
+    common.unwrap_capture(R, ro, "C03.CAPTURE-ALL")
+    common.wait_for_exits(R, ro, "C03.WAIT-FOR")
+    stack_limit(R)
     # ---- NO-RECURSION
     no_recursion(R, ro)
     # ---- termination: a finished batch is never flushed again (BatchingError would leave wait_for
@@ -324,3 +327,19 @@ def no_recursion(R, ro):
     R.check(hit is None, "C03.NO-RECURSION", drain.qualname + ":cycle", R.site(drain),
             "the drain's call tree (%d functions; user callbacks, value()/error() cut) does not re-enter the drain or wait_for" % len(seen),
             "the drain re-enters itself: awaiting depth is bounded by the interpreter's recursion limit", fmt_chain(hit) if hit else None)
+
+
+def stack_limit(R):
+    """The runaway-recursion limit must not be reachable by a legitimate chain 'tens of thousands of
+    tasks deep': the default has to be at least 100000 (the upper end of that range)."""
+    dm = R.repo.modules["debug"]
+    vals = []
+    for st in dm.tree.body:
+        if isinstance(st, ast.Assign) and any(q.src(t).endswith(".MAX_TASK_STACK_SIZE") for t in st.targets):
+            vals.append((st, q.const_value(st.value)))
+    R.need(vals, "anchor vanished: the default of MAX_TASK_STACK_SIZE in debug.py")
+    for st, v in vals:
+        R.check(isinstance(v, int) and v >= 100000, "C03.STACK-LIMIT", "debug.MAX_TASK_STACK_SIZE", R.site(dm, st),
+                "the default stack limit (%s) is above any chain 'tens of thousands' of tasks deep" % v,
+                "the default MAX_TASK_STACK_SIZE is %s: a finite chain of a few tens of thousands of awaiting tasks hits the runaway-recursion guard and "
+                "value() raises RuntimeError instead of returning" % v)
